@@ -3,21 +3,32 @@ import Driver.HsShared
   Line-protocol driver of property C06: the client machine against `ServerSpec` (`exchange`), with the
   executable SHA-1 / AES-256 / modular exponentiation plugged in.
     c06.hs <tag> <nonce> <new_nonce> <b> <padseed> <pad16> <n> <e> <d> <server_nonce> <p> <q> <g> <a>
-           <dh_prime> <time> <spad16> <minimal> <extra fps>
+           <dh_prime> <time> <spad16> <minimal> <fps>
+  <fps>: `-`, or a comma-separated list of the further fingerprints the server offers, in which `*` stands
+  for that of its own key (no `*`: its own comes last).
 -/
 namespace Driver.C06
 open Mtv Mtv.Handshake Driver Driver.Hs
+
+/-- the further fingerprints before and after the server's own (`*`) -/
+def fpsAround? (s : String) : Option (List Nat × List Nat) :=
+  let ts := splitComma s
+  let before := ts.takeWhile (· ≠ "*")
+  let after := (ts.dropWhile (· ≠ "*")).drop 1
+  match before.mapM (·.toNat?), after.mapM (·.toNat?) with
+  | some b, some a => some (b, a)
+  | _, _ => none
 
 def handle : List String → String
   | ["c06.hs", _tag, nonce, nn, b, _ps, pad, n, e, d, sn, p, q, g, a, dhp, t, spad, mn, xfp] =>
     match parseBytes? nonce, parseBytes? nn, parseBytes? b, parseBytes? pad, hexNat? n, e.toNat?, hexNat? d with
     | some nonce, some nn, some b, some pad, some n, some e, some d =>
-      match hexNat? sn, p.toNat?, q.toNat?, g.toNat?, hexNat? a, hexNat? dhp, t.toNat?, parseBytes? spad, natList? xfp with
+      match hexNat? sn, p.toNat?, q.toNat?, g.toNat?, hexNat? a, hexNat? dhp, t.toNat?, parseBytes? spad, fpsAround? xfp with
       | some sn, some p, some q, some g, some a, some dhp, some t, some spad, some xfp =>
         if nonce.length ≠ 16 ∨ nn.length ≠ 32 ∨ b.length ≠ 256 ∨ pad.length ≠ 16 ∨ spad.length ≠ 16 then "bad-op" else
         let c : Cfg := { R := Mtv.Gen.registry, P := prims (some (p, q)), key := ⟨n, e⟩, d := ⟨nonce, nn, b, pad⟩ }
         let s : Secrets := { d := d, serverNonce := sn, p := p, q := q, g := g, a := a, dhPrime := dhp, time := t,
-                             pad := spad, minimal := mn == "1", extraFps := xfp }
+                             pad := spad, minimal := mn == "1", extraFps := xfp.1, laterFps := xfp.2 }
         let x := exchange c s
         let srv := match x.server with
           | some r => s!"srv=done skey={showBytes r.authKey} ssalt={toSigned 64 r.salt} shash={toHexD r.hash}"
